@@ -15,23 +15,29 @@ const mergeDirName = "-merge"
 
 // Merge 立即执行 Merge 过程
 func (db *DB) Merge() error {
+	// 方法仅部分逻辑需加锁, 不应 defer
+	// 活跃文件、merge 状态及统计量均受 db.mu 保护, 校验与状态更新必须在同一临界区内完成
+	// 否则两个并发的 Merge 均可通过校验, 同时操作同一个 merge 临时目录
+	db.mu.Lock()
+
 	// 校验数据是否为空
 	if db.activeFile == nil {
+		db.mu.Unlock()
 		return nil
 	}
 
 	// 校验是否满足 merge 条件
 	if err := db.mergeCheck(); err != nil {
+		db.mu.Unlock()
 		return err
 	}
-
-	// 方法仅部分逻辑需加锁, 不应 defer
-	db.mu.Lock()
 
 	// 更新 merge 状态
 	db.isMerging = true
 	defer func() {
+		db.mu.Lock()
 		db.isMerging = false
+		db.mu.Unlock()
 	}()
 
 	// 当前活跃文件同样加入参与 merge 的集合
